@@ -76,6 +76,10 @@ func c17JudgeInput(c *fw.Ctx, kind string, x []byte, dense int, extra []int) {
 	}
 	ls := c17Limits(len(x), dense, extra)
 	ls = append(ls, 0) // unlimited, the largest
+	entry := "Detect"
+	if c.Rand.Intn(8) == 0 { // a whole sweep through the reader entry point
+		entry = "DetectReaderChunked"
+	}
 	firstBin, firstBinLeaf := -1, ""
 	var sig []byte
 	var prevLeaf string
@@ -87,7 +91,7 @@ func c17JudgeInput(c *fw.Ctx, kind string, x []byte, dense int, extra []int) {
 		var ch lib.Chain
 		key := fw.InputKey(x, uint32(L), "Detect")
 		ok := c.Guard(key, func() any { return c17Payload{Kind: kind, In: x, L1: uint32(L), L2: uint32(L), InQ: fw.Quote(x, 100)} }, func() {
-			ch = lib.ChainOf(lib.Detect(x, uint32(L)))
+			ch = lib.ChainOf(detectEntry(x, uint32(L), entry))
 		})
 		c.Eval(1)
 		if !ok {
